@@ -516,11 +516,15 @@ def build (s : Text) : R Sim := coreLoop (s.length + 1) s 1 [] []
 /-- `.replace('\r', "")` -/
 def dropCR (s : Text) : Text := s.filter (· ≠ '\r')
 
-/-- `.replace("    ", "\t")`: leftmost, non-overlapping -/
-def fourSp : Text → Text
-  | ' ' :: ' ' :: ' ' :: ' ' :: r => '\t' :: fourSp r
-  | c :: r => c :: fourSp r
-  | [] => []
+/-- `.replace("    ", "\t")` (leftmost, non-overlapping) as a one-pass scanner: `k` < 4 spaces are
+    pending; the fourth becomes a tab, any other character releases them -/
+def fourSpFrom : Nat → Text → Text
+  | k, [] => List.replicate k ' '
+  | k, c :: r =>
+    if c = ' ' then (if k = 3 then '\t' :: fourSpFrom 0 r else fourSpFrom (k + 1) r)
+    else List.replicate k ' ' ++ c :: fourSpFrom 0 r
+
+def fourSp (s : Text) : Text := fourSpFrom 0 s
 
 def normalise (s : Text) : Text := fourSp (dropCR s)
 
